@@ -19,7 +19,6 @@ import hashlib
 import json
 import os as _real_os
 import time as _real_time
-import types
 import uuid as _real_uuid
 from collections.abc import Iterator
 from dataclasses import dataclass, field
@@ -989,11 +988,8 @@ TRICKY_IDENTITY_PAIRS: list[tuple[dict[str, Any] | None, dict[str, Any] | None]]
     ({"domain": "", "principal": "a\x00b"}, {"domain": "a", "principal": "b"}),
     ({"domain": "a", "principal": "b"}, {"domain": "", "principal": "a\x00b"}),
     ({"domain": "a", "principal": ""}, {"domain": "", "principal": "a"}),
-    ({"domain": "é", "principal": "x"}, {"domain": "é", "principal": "x"}),
+    ({"domain": "\u00e9", "principal": "x"}, {"domain": "e\u0301", "principal": "x"}),  # NFC vs NFD spellings: distinct byte strings
     ({"domain": "a", "principal": "alice"}, {"domain": "a", "principal": "Alice"}),
     ({"domain": "a", "principal": "alice"}, {"domain": "b", "principal": "alice"}),
     ({"domain": "a", "principal": "alice"}, None),
 ]
-
-__all__ = [n for n in dir() if not n.startswith("_")]
-_ = types  # keep import (used by dynamic helpers in checks)
